@@ -156,8 +156,10 @@ def normalize_key(
     normalized_key: list[int | slice] = []
     shape_index = 0
     internal_shape_index = 0
+    # When dumping, the key only indexes the external (mapped) axes
+    key_mask = (True,) * expected_rank if for_dump else shape_mask
 
-    for axis, (mask, k) in enumerate(zip(shape_mask, key)):
+    for axis, (mask, k) in enumerate(zip(key_mask, key)):
         if mask:
             axis_size = shape[shape_index]
             shape_index += 1
